@@ -13,7 +13,8 @@
 import logging
 import operator
 from multiprocessing import Process, Queue
-from typing import Any, Callable, Dict, Iterator, List, Optional
+from queue import Empty
+from typing import Any, Callable, Dict, Iterator, List, Optional, Tuple
 
 from numpy.typing import NDArray
 
@@ -88,13 +89,18 @@ class MultiprocessingSolver(Solver):
 
     def solve(self) -> Iterator[NDArray]:
         solutions: Queue = Queue()
+        processes = []
         for proc_idx, solver in enumerate(self.solvers):
-            Process(target=solver.solve_and_queue, args=(proc_idx, solutions)).start()
+            process = Process(target=solver.solve_and_queue, args=(proc_idx, solutions))
+            process.start()
+            processes.append(process)
+        finished = [False for _ in self.solvers]
         nb = len(self.solvers)
         while nb > 0:
-            proc_idx, solution, statistics = solutions.get()
+            proc_idx, solution, statistics = get_message(solutions, processes, finished)
             self.statistics[proc_idx] = statistics
             if solution is None:
+                finished[proc_idx] = True
                 nb -= 1
             else:
                 yield solution
@@ -107,18 +113,47 @@ class MultiprocessingSolver(Solver):
 
     def optimize(self, variable_idx: int, proc_func_name: str, comparison_func: Callable) -> Optional[NDArray]:
         solutions: Queue = Queue()
+        processes = []
         for proc_idx, solver in enumerate(self.solvers):
-            Process(target=(getattr(solver, proc_func_name)), args=(variable_idx, proc_idx, solutions)).start()
+            process = Process(target=(getattr(solver, proc_func_name)), args=(variable_idx, proc_idx, solutions))
+            process.start()
+            processes.append(process)
+        finished = [False for _ in self.solvers]
         best_solution = None
         nb = len(self.solvers)
         while nb > 0:
-            proc_idx, solution, statistics = solutions.get()
+            proc_idx, solution, statistics = get_message(solutions, processes, finished)
             self.statistics[proc_idx] = statistics
             if solution is None:
+                finished[proc_idx] = True
                 nb -= 1
             elif best_solution is None or comparison_func(solution[variable_idx], best_solution[variable_idx]):
                 best_solution = solution
         return best_solution
+
+
+QUEUE_TIMEOUT = 1.0  # in seconds, the period at which the liveness of the processes is checked
+
+
+def get_message(solutions: Queue, processes: List[Process], finished: List[bool]) -> Tuple[int, Optional[NDArray], Any]:
+    """
+    Waits for the next message of the processes.
+    :param solutions: the queue of messages
+    :param processes: the processes
+    :param finished: for each process, true iff it has announced its completion
+    :return: a message (process index, solution or None, statistics)
+    :raises RuntimeError: if a process has terminated without announcing its completion
+    """
+    while True:
+        try:
+            return solutions.get(timeout=QUEUE_TIMEOUT)
+        except Empty:
+            dead = [idx for idx, process in enumerate(processes) if not finished[idx] and not process.is_alive()]
+            if dead:
+                try:  # whatever a terminated process has sent has reached the queue by now
+                    return solutions.get(timeout=QUEUE_TIMEOUT)
+                except Empty:
+                    raise RuntimeError(f"Processes {dead} terminated before announcing their completion")
 
 
 def sum_stats(stats: List[Any], index: int) -> int:
